@@ -50,6 +50,21 @@ var c14Scenarios = [][]c14Op{
 	{{"MM", "the quick brown fox", ""}, {"MM", "the quick brown fox", ""}},
 	{{"MM", "x the quick brown fox y", ""}, {"MM", "lazy dog jumps", ""}, {"ADD", "over the moon", "K3"}},
 	{{"NM", "the quick brown fox", ""}, {"NM", "lazy dog jumps", ""}, {"MM", "lazy dog jumps the quick brown fox", ""}},
+	{{"ADD", "over the moon", "K3"}, {"ADD", "under the sea", "K3"}},
+	{{"ADD", "over the moon", "K3"}, {"ADD", "under the sea", "K3"}, {"MM", "x over the moon y under the sea", ""}},
+	{{"ADD", "over the moon", "K3"}, {"ADD", "under the sea", "K4"}, {"NM", "under the sea", ""}},
+}
+
+// c14Probe observes the final state after all calls returned: which of the values that were
+// ever offered are now known, and under which key.
+func c14Probe(cl *Classifier, ops []c14Op) string {
+	var out []string
+	for _, o := range ops {
+		if o.kind == "ADD" {
+			out = append(out, "probe("+o.arg+")="+fmtMatch(cl.NearestMatch(o.arg)))
+		}
+	}
+	return strings.Join(out, ",")
 }
 
 func c14Build(precomputed bool) *Classifier {
@@ -76,14 +91,11 @@ func (o c14Op) run(cl *Classifier) string {
 	}
 }
 
-// c14Allowed: the set of results an operation may return = its result in some
-// sequential order of all operations (AddValue before or after it).
-func c14Allowed(ops []c14Op, precomputed bool) []map[string]bool {
+// c14Allowed: the joint outcomes (every call's result plus the final-state probe) of all
+// sequential orders of the calls.
+func c14Allowed(ops []c14Op, precomputed bool) map[string]bool {
 	n := len(ops)
-	allowed := make([]map[string]bool, n)
-	for i := range allowed {
-		allowed[i] = map[string]bool{}
-	}
+	allowed := map[string]bool{}
 	perm := make([]int, n)
 	for i := range perm {
 		perm[i] = i
@@ -98,10 +110,9 @@ func c14Allowed(ops []c14Op, precomputed bool) []map[string]bool {
 				for _, i := range perm {
 					res[i] = ops[i].run(cl)
 				}
+				res = append(res, c14Probe(cl, ops))
 			})
-			for i, r := range res {
-				allowed[i][r] = true
-			}
+			allowed[strings.Join(res, " || ")] = true
 			return
 		}
 		for j := k; j < n; j++ {
@@ -139,7 +150,7 @@ func c14Sched(c *vrep.Ctx) {
 	body := func(r *vx.Run) {
 		s := vsync.New(r, pol)
 		s.AccessYields = accessYields
-		got := make([]string, len(ops))
+		got := make([]string, len(ops)+1)
 		s.Main(func() {
 			cl := c14Build(precomputed)
 			var wg vsync.WaitGroup
@@ -152,6 +163,7 @@ func c14Sched(c *vrep.Ctx) {
 				})
 			}
 			wg.Wait()
+			got[len(ops)] = c14Probe(cl, ops)
 		})
 		msg := ""
 		switch {
@@ -165,15 +177,13 @@ func c14Sched(c *vrep.Ctx) {
 			r.Note = map[string]interface{}{"horizon": true}
 			return
 		default:
-			for i := range ops {
-				if !allowed[i][got[i]] {
-					var al []string
-					for a := range allowed[i] {
-						al = append(al, a)
-					}
-					sort.Strings(al)
-					msg = fmt.Sprintf("call %d %s returned %q, sequentially it returns one of %q", i, desc[i], got[i], al)
+			if !allowed[strings.Join(got, " || ")] {
+				var al []string
+				for a := range allowed {
+					al = append(al, a)
 				}
+				sort.Strings(al)
+				msg = fmt.Sprintf("the calls returned jointly %q, which no sequential order of the calls produces (sequential outcomes: %q)", strings.Join(got, " || "), al)
 			}
 		}
 		r.Note = map[string]interface{}{"msg": msg, "steps": s.Steps, "switches": s.Switches, "enabled": s.MaxEnabled, "got": strings.Join(got, " || ")}
@@ -196,8 +206,8 @@ func c14Sched(c *vrep.Ctx) {
 		}
 		if m := r.Note["msg"].(string); m != "" {
 			k := m
-			if i := strings.Index(k, " returned "); i > 0 {
-				k = k[:i]
+			if i := strings.Index(k, " returned jointly"); i > 0 {
+				k = "non-linearizable outcome"
 			}
 			c.Violate("c14_sched:"+strings.ReplaceAll(k, " ", "_"), fmt.Sprintf("scenario %v schedule %v: %s", desc, r.Choices, m), r, m)
 		}
